@@ -219,14 +219,35 @@ def new (alloc : Bool) : LongNameBuilder := ⟨LfnBuf.new alloc, 0, 0⟩
 def clear (alloc : Bool) (b : LongNameBuilder) : LongNameBuilder :=
   { b with buf := b.buf.clear alloc, index := 0 }
 
-/-- `truncate`: scans `self.buf.ucs2_units` — the whole vector, resp. the WHOLE 260-unit array (F18) -/
+/-- `truncate`: `new_len` = position after the last unit that is neither 0 nor 0xFFFF among the LIVE units
+    `self.buf.as_ucs2_units()` (both variants; before commit 11043bc the fixed variant scanned the whole array: F18) -/
 def truncate (alloc : Bool) (b : LongNameBuilder) : LongNameBuilder :=
-  { b with buf := b.buf.setLen alloc (stripLen b.buf.units) }
+  { b with buf := b.buf.setLen alloc (stripLen b.buf.asUnits) }
 
+/-- `truncate` with the bounds check of `as_ucs2_units()` (`none` = panic) -/
+def truncate? (alloc : Bool) (b : LongNameBuilder) : Option LongNameBuilder :=
+  match b.buf.asUnits? with
+  | none => none
+  | some u => some { b with buf := b.buf.setLen alloc (stripLen u) }
+
+/-- `MAX_LONG_NAME_LEN` -/
+def maxNameLen : Nat := 255
+
+/-- `into_buf`: complete run → truncate, and (commit 6c58f9d) clear if more than 255 units remain;
+    unfinished run → clear -/
 def intoBuf (alloc : Bool) (b : LongNameBuilder) : LfnBuf :=
-  if b.index = 1 then (b.truncate alloc).buf
+  if b.index = 1 then
+    (if (b.truncate alloc).buf.len > maxNameLen then ((b.truncate alloc).clear alloc).buf else (b.truncate alloc).buf)
   else if b.index ≠ 0 then (b.clear alloc).buf
   else b.buf
+
+def intoBuf? (alloc : Bool) (b : LongNameBuilder) : Option LfnBuf :=
+  if b.index = 1 then
+    match b.truncate? alloc with
+    | none => none
+    | some t => some (if t.buf.len > maxNameLen then (t.clear alloc).buf else t.buf)
+  else if b.index ≠ 0 then some (b.clear alloc).buf
+  else some b.buf
 
 def validateChksum (alloc : Bool) (b : LongNameBuilder) (sfn11 : List Nat) : LongNameBuilder :=
   if b.index = 0 then b
@@ -262,7 +283,9 @@ def finish (alloc : Bool) (b : LongNameBuilder) (sfn11 : List Nat) : List Nat :=
   ((b.validateChksum alloc sfn11).intoBuf alloc).asUnits
 
 def finish? (alloc : Bool) (b : LongNameBuilder) (sfn11 : List Nat) : Option (List Nat) :=
-  ((b.validateChksum alloc sfn11).intoBuf alloc).asUnits?
+  match (b.validateChksum alloc sfn11).intoBuf? alloc with
+  | none => none
+  | some buf => buf.asUnits?
 
 end LongNameBuilder
 
@@ -323,7 +346,8 @@ def readLoop? (alloc skipVolume : Bool) :
 
 /-- No restart inside a block of long-name slots: no `0x40`-flagged long-name slot with a valid ordinal directly follows
     another (non-deleted) long-name slot.  `prevLfn` = the previous slot was a long-name slot.
-    Holds for every directory the library writes; it is the domain on which the two buffer variants agree (F18). -/
+    Holds for every directory the library writes.  Before commit 11043bc the two buffer variants agreed only on this
+    domain (F18); kept as a coverage label of the correspondence suite. -/
 def cleanStarts : Bool → List (List Nat) → Bool
   | _, [] => true
   | prevLfn, s :: rest =>
